@@ -642,7 +642,20 @@ def handleRoundTrip (st : State) (args : List String) (impl : List String) : Str
               (match configDecode ext.dec tk.config.decoding raw with
                 | some (.ok expect) =>
                   if dec == expect then (if tk.config.normalization.isEmpty && dec != t then "FAILS identity-roundtrip" else "HOLDS")
-                  else "FAILS roundtrip"
+                  else
+                    -- is the difference exactly the declared `Collapse` of adjacent copies of a special id
+                    -- (known finding F21)? then say so, so that any other loss is still reported as such
+                    let collapseIds : List Id := tk.config.processing.filterMap fun (p : Processing) => match p with | .collapse id => some id | _ => none
+                    let rec dedup : List TextPart → List TextPart
+                      | a :: b :: rest =>
+                        if a.special != INVALID && a.special == b.special && collapseIds.contains a.special
+                        then dedup (b :: rest) else a :: dedup (b :: rest)
+                      | l => l
+                    let raw' : Bytes := (dedup ps).flatMap fun (p : TextPart) => p.text
+                    (match configDecode ext.dec tk.config.decoding raw' with
+                      | some (.ok expect') =>
+                        if dec == expect' then "FAILS roundtrip-adjacent-special-collapsed" else "FAILS roundtrip"
+                      | _ => "FAILS roundtrip")
                 | _ => "HOLDS-NA")
             | _, _ => "NO-VERDICT")
         | ["PANIC"] => "FAILS panic"
